@@ -389,3 +389,64 @@ EQUIVALENTS += [
     {"id": "e16", "props": ["C12", "C07", "C02"], "why": "class keywords collected with append in an else branch",
      "files": [("oneliner/pending_nodes.py", "                metaclass_expr = expr_transf(self.nsp, _keyword.value)\n                continue\n            class_keywords.append(", "                metaclass_expr = expr_transf(self.nsp, _keyword.value)\n                continue\n            else:\n                pass\n            class_keywords.append(")]},
 ]
+
+# --- second batch: at least two mutants per claimed rule (anchored on the repaired tree) -------
+PN = "oneliner/pending_nodes.py"
+EU = "oneliner/expr_unparse.py"
+MUTANTS += [
+    {"id": "n01", "prop": "C01", "expect": ["C01-R1"], "files": [(PN, "        loader_name = ol_name(OL_CLASS_LOADER)", "        loader_name = \"__loader\"")]},
+    {"id": "n03", "prop": "C01", "expect": ["C01-R3"], "files": [("oneliner/__init__.py", "    symtable_root = symtable.symtable(code, filename, \"exec\")", "    symtable_root = symtable.symtable(code.strip(), filename, \"exec\")")]},
+    {"id": "n04", "prop": "C02", "expect": ["C02-R1"], "files": [("oneliner/reserved_identifiers.py", "\"__ol_mod_{}\"", "\"__ol_mod-{}\"")]},
+    {"id": "n05", "prop": "C02", "expect": ["C02-R2"], "files": [(PN, "    def assign_subscript(self, target: Subscript, value: expr):\n        _slice = utils.convert_index(target.slice)", "    def assign_subscript(self, target: Subscript, value: expr):\n        _slice = target.slice")]},
+    {"id": "n07", "prop": "C02", "expect": ["C02-R5"], "files": [("oneliner/__init__.py", "        return expr_unparse(out)", "        return expr_unparse(out).strip(\"()\")")]},
+    {"id": "n08", "prop": "C03", "expect": ["C03-R1"], "files": [(EU, "        Await: unparse_Await,\n", "")]},
+    {"id": "n09", "prop": "C03", "expect": ["C03-R2"], "files": [(EU, "    if node.step is not None:\n        step = yield PREC_EXPR_SLOT, node.step\n", "")]},
+    {"id": "n10", "prop": "C03", "expect": ["C03-R4"], "files": [(EU, "    if value.isdigit():", "    if False:")]},
+    {"id": "n11", "prop": "C03", "expect": ["C03-R5"], "files": [(EU, "    Sub: \"-\",\n}", "    Sub: \"+\",\n}")]},
+    {"id": "n12", "prop": "C03", "expect": ["C03-R5"], "files": [(EU, "    Is: \" is \",", "    Is: \"is\",")]},
+    {"id": "n14", "prop": "C04", "expect": ["C04-R1"], "files": [(EU, "        if i == qm:\n            out.append(f\"\\\\{qm}\")\n        elif ord(i) > 255", "        if ord(i) > 255")]},
+    {"id": "n15", "prop": "C04", "expect": ["C04-R1"], "files": [(EU, "        elif ord(i) > 255 and", "        elif ord(i) > 126 and")]},
+    {"id": "n16", "prop": "C04", "expect": ["C04-R2"], "files": [(EU, ".replace(\"inf\", \"1e309\")", ".replace(\"inf\", \"1e308\")")]},
+    {"id": "n17", "prop": "C04", "expect": ["C04-R3"], "files": [(EU, "    if value[0] == \"{\":\n        value = \" \" + value\n", "")]},
+    {"id": "n18", "prop": "C04", "expect": ["C04-R4"], "files": [(EU, "            if outer_str_qm == \"'\":\n                self.qm = '\"'\n            elif outer_str_qm == '\"':\n                self.qm = \"'\"", "            self.qm = outer_str_qm")]},
+    {"id": "n19", "prop": "C05", "expect": ["C05-R1"], "files": [(PN, "        self.loop = self.nsp.loop_stack[-1]\n        self.loop.interrupt_cnt += 1\n\n    def get_result(self) -> list[expr]:\n        return_value: list[expr] = []\n        self.loop.interrupt_node_bodies.append(return_value)", "        self.loop = self.nsp.loop_stack[-1]\n        self.loop.interrupt_cnt += 1\n        self.loop.break_cnt += 1\n\n    def get_result(self) -> list[expr]:\n        return_value: list[expr] = []\n        self.loop.interrupt_node_bodies.append(return_value)")]},
+    {"id": "n20", "prop": "C05", "expect": ["C05-R2"], "files": [(PN, "        # init the interrupt flow-control var\n        if self.flow_ctrl_interrupt_used:\n            self.converted_body.insert(\n                0,\n                NamedExpr(", "        # init the interrupt flow-control var\n        if self.flow_ctrl_interrupt_used:\n            self.converted_body.append(\n                NamedExpr(")]},
+    {"id": "n21", "prop": "C05", "expect": ["C05-R2"], "files": [(PN, "                    operand=Attribute(\n                        value=self.flow_ctrl_wrapped_iter_expr,\n                        attr=\"_break\",\n                        ctx=Load(),\n                    ),", "                    operand=self.flow_ctrl_interrupt_expr,")]},
+    {"id": "n22", "prop": "C05", "expect": ["C05-R4"], "files": [(PN, "        yield from self._iter_branch(\n            self.converted_orelse,\n            self.node.orelse,\n            get_interrupt_cnt,\n            get_flow_control_expr,\n        )\n\n\nclass PendingWhile", "        yield from self._iter_branch(\n            self.converted_orelse,\n            self.node.orelse,\n            lambda: self.interrupt_cnt,\n            self.get_flow_ctrl_expr,\n        )\n\n\nclass PendingWhile")]},
+    {"id": "n23", "prop": "C06", "expect": ["C06-R1"], "files": [(PN, "                    target=self.nsp.return_value_expr,\n                    value=expr_transf(self.nsp, self.node.value),", "                    target=self.nsp.return_value_expr,\n                    value=self.node.value,")]},
+    {"id": "n24", "prop": "C06", "expect": ["C06-R2"], "files": [("oneliner/expr_transform.py", "        elif isinstance(node, (ListComp, SetComp, DictComp, GeneratorExp)):\n            return PendingComp(node, self.nsp)\n", "")]},
+    {"id": "n25", "prop": "C06", "expect": ["C06-R3"], "files": [("oneliner/namespaces.py", "            outer = self.outer_nonlocal_map[name]\n            return Subscript(\n                value=outer.nonlocal_dict_expr,\n                slice=Constant(value=name),\n                ctx=Load(),\n            )\n        else:  # globals or locals except free", "            outer = self.outer_nonlocal_map[name]\n            return Subscript(\n                value=self.nonlocal_dict_expr,\n                slice=Constant(value=name),\n                ctx=Load(),\n            )\n        else:  # globals or locals except free")]},
+    {"id": "n26", "prop": "C06", "expect": ["C06-R4"], "files": [("oneliner/namespaces.py", "                if outer_symbol.is_local():\n                    outer.inner_nonlocal_names.add(nonlocal_free)\n                    self.outer_nonlocal_map[nonlocal_free] = outer\n                    if outer_symbol.is_parameter():\n                        outer.nonlocal_parameters.add(nonlocal_free)\n                    break\n            else:\n                raise RuntimeError(  # pragma: no cover\n                    f\"Unable to search the origin of nonlocal/free '{nonlocal_free}'\"\n                )\n\n    def get_flow_ctrl_expr", "                if outer_symbol.is_local() or outer_symbol.is_assigned():\n                    outer.inner_nonlocal_names.add(nonlocal_free)\n                    self.outer_nonlocal_map[nonlocal_free] = outer\n                    if outer_symbol.is_parameter():\n                        outer.nonlocal_parameters.add(nonlocal_free)\n                    break\n            else:\n                raise RuntimeError(  # pragma: no cover\n                    f\"Unable to search the origin of nonlocal/free '{nonlocal_free}'\"\n                )\n\n    def get_flow_ctrl_expr")]},
+    {"id": "n28", "prop": "C06", "expect": ["C06-R6"], "files": [("oneliner/namespaces.py", "        self.globals_used_in_comp = set()\n", "        if sys.version_info < (3, 12):\n            self.globals_used_in_comp = set()\n"), ("oneliner/namespaces.py", "    globals_used_in_comp: set[str]  # global names used in lambdas/comprehensions\n", "")]},
+    {"id": "n29", "prop": "C07", "expect": ["C07-R1"], "files": [(PN, "        if len(assign_targets) > 1 or isinstance(\n            assign_targets[0], (Attribute, Subscript)\n        ):", "        if isinstance(assign_targets[0], (Attribute, Subscript)):")]},
+    {"id": "n31", "prop": "C07", "expect": ["C07-R3"], "files": [("oneliner/expr_transform.py", "        for field_name in self.node._fields:", "        for field_name in reversed(self.node._fields):")]},
+    {"id": "n32", "prop": "C08", "expect": ["C08-R1"], "files": [("oneliner/convert.py", "    ast.FunctionDef: PendingFunctionDef,", "    ast.FunctionDef: PendingFunctionDef,\n    ast.AsyncFunctionDef: PendingFunctionDef,")]},
+    {"id": "n33", "prop": "C08", "expect": ["C08-R2"], "files": [("oneliner/expr_transform.py", "                except StopIteration:\n                    converted = self.pending_stack.pop().get_result()", "                except Exception:\n                    converted = self.pending_stack.pop().get_result()")]},
+    {"id": "n34", "prop": "C08", "expect": ["C08-R3"], "files": [("oneliner/expr_transform.py", "        elif isinstance(node, (Yield, YieldFrom, Await)):", "        elif isinstance(node, (YieldFrom, Await)):")]},
+]
+
+MUTANTS += [
+    {"id": "n35", "prop": "C08", "expect": ["C08-R4"], "files": [(PN, "        if len(self.nsp.loop_stack) == 0:\n            raise SyntaxError(\n                utils.ast_debug_info(node) + \"'continue' is not inside a loop\"\n            )\n\n        self.loop = self.nsp.loop_stack[-1]\n        self.loop.interrupt_cnt += 1", "        if len(self.nsp.loop_stack) == 0:\n            self.loop = None\n            return\n\n        self.loop = self.nsp.loop_stack[-1]\n        self.loop.interrupt_cnt += 1")]},
+    {"id": "n36", "prop": "C08", "expect": ["C08-R5"], "files": [(PN, "        for _keyword in self.node.keywords:", "        for _keyword in []:")]},
+    {"id": "n37", "prop": "C09", "expect": ["C09-R1"], "files": [("oneliner/reserved_identifiers.py", "OL_RETURN: _ol_reserved_name = \"__ol_ret_{}\"", "OL_RETURN: _ol_reserved_name = \"__ol_retv_{}\"")]},
+    {"id": "n38", "prop": "C09", "expect": ["C09-R2"], "files": [(PN, "                value=Lambda(\n                    args=arguments(\n                        posonlyargs=[],\n                        args=[],\n                        kwonlyargs=[],\n                        kw_defaults=[],\n                        defaults=[],\n                    ),\n                    body=Subscript(\n                        value=List(elts=class_body, ctx=Load()),", "                value=Lambda(\n                    args=arguments(\n                        posonlyargs=[],\n                        args=[arg(arg=\"ns\")],\n                        kwonlyargs=[],\n                        kw_defaults=[],\n                        defaults=[Constant(value=None)],\n                    ),\n                    body=Subscript(\n                        value=List(elts=class_body, ctx=Load()),")]},
+    {"id": "n39", "prop": "C10", "expect": ["C10-R1"], "files": [("oneliner/utils.py", "def get_expr_wrapper(configs: Configs):\n    if configs.expr_wrapper == \"chain_call\":", "_wrapper_cache: dict = {}\n\n\ndef get_expr_wrapper(configs: Configs):\n    if \"last\" in _wrapper_cache:\n        return _wrapper_cache[\"last\"]\n    _wrapper_cache[\"last\"] = None\n    if configs.expr_wrapper == \"chain_call\":")]},
+    {"id": "n40", "prop": "C10", "expect": ["C10-R2", "C10-R1"], "files": [(PN, "            from .presets import iter_wrapper_body\n\n            self.converted_body.insert(0, iter_wrapper_body)", "            from .presets import iter_wrapper_body\n\n            iter_wrapper_body.value.keywords = []\n            self.converted_body.insert(0, iter_wrapper_body)")]},
+    {"id": "n41", "prop": "C10", "expect": ["C10-R4"], "files": [("oneliner/reserved_identifiers.py", "import oneliner.utils as utils\n", "import functools\n\nimport oneliner.utils as utils\n"), ("oneliner/reserved_identifiers.py", "def ol_name(name: _ol_reserved_name):", "@functools.cache\ndef ol_name(name: _ol_reserved_name):")]},
+    {"id": "n42", "prop": "C10", "expect": ["C10-R5"], "files": [("oneliner/__init__.py", "import ast\nimport symtable\n", "import ast\nimport os\nimport symtable\n"), ("oneliner/__init__.py", "    if configs.unparser == \"oneliner\":", "    if configs.unparser == \"oneliner\" or os.environ.get(\"ONELINER_UNPARSER\") == \"oneliner\":")]},
+    {"id": "n43", "prop": "C11", "expect": ["C11-R1"], "files": [(PN, "        for _arg in original_args.kwonlyargs:\n            converted_args.kwonlyargs.append(arg(arg=_arg.arg))", "        for _arg in original_args.kwonlyargs:\n            converted_args.args.append(arg(arg=_arg.arg))")]},
+    {"id": "n45", "prop": "C11", "expect": ["C11-R5"], "files": [(PN, "        return [self.nsp.get_assign(self.node.name, body_expr)]", "        return [self.internal_nsp.get_assign(self.node.name, body_expr)]")]},
+    {"id": "n46", "prop": "C12", "expect": ["C12-R2"], "files": [(PN, "                value=self.nsp.get_load_name(self.node.name),", "                value=Name(id=self.node.name, ctx=Load()),")]},
+    {"id": "n47", "prop": "C12", "expect": ["C12-R4"], "files": [(PN, "        if self.internal_nsp.zero_arg_super_used:", "        if self.internal_nsp.is_method:")]},
+    {"id": "n48", "prop": "C12", "expect": ["C12-R5"], "files": [(PN, "            \"__class_getitem__\",\n", "            \"__class_getitem__\",\n            \"__new__\",\n")]},
+    {"id": "n51", "prop": "C13", "expect": ["C13-R4"], "files": [(PN, "            raise NotImplementedError(f\"Unknown assignment target: {type(target)}\")", "            return []")]},
+    {"id": "n52", "prop": "C13", "expect": ["C13-R7"], "files": [(PN, "        return self.nsp.get_assign(target.id, value)", "        return NamedExpr(target=Name(id=target.id, ctx=Store()), value=value)")]},
+    {"id": "n53", "prop": "C14", "expect": ["C14-R1"], "files": [(PN, "            if _alias.asname is not None:\n                asname = _alias.asname\n", "            if _alias.asname is not None:\n                asname = _alias.asname\n                import_func = Name(id=\"__import__\", ctx=Load())\n")]},
+    {"id": "n54", "prop": "C14", "expect": ["C14-R5"], "files": [(PN, "        super().__init__(node, nsp, nsp_global)\n        self.nsp_global.use_importlib = True", "        super().__init__(node, nsp, nsp_global)")]},
+    {"id": "n55", "prop": "C15", "expect": ["C15-R1"], "files": [(EU, "        _slice = yield PREC_EXPR_SLOT, node.slice", "        _slice = yield PREC_CALL_SLOT_ARG, node.slice")]},
+    {"id": "n56", "prop": "C15", "expect": ["C15-R3", "C15-R2"], "files": [(EU, "            if \"\\\\\" in field:", "            if sys.version_info < (3, 12) and \"\\\\\" in field:"), (EU, "import itertools\nimport typing", "import itertools\nimport sys\nimport typing")]},
+    {"id": "n58", "prop": "C16", "expect": ["C16-R2"], "files": [("oneliner/__main__.py", "        outfile.write(converted)", "        outfile.write(converted.strip())")]},
+    {"id": "n59", "prop": "C16", "expect": ["C16-R3"], "files": [("oneliner/config.py", "            if value not in self.tp:\n                raise ValueError(\n                    f\"Invalid value of config '{self.name}', \"\n                    f\"got '{value}', expected {self.tp}\"\n                )", "            if value not in self.tp:\n                value = self.default")]},
+    {"id": "n60", "prop": "C13", "expect": ["C13-R3"], "files": [(PN, "                self.nsp.get_assign(\n                    self.node.target.id,\n                    self._aug_assign_expr(\n                        target,\n                        self.node.op,\n                        assign_value,\n                        fallback=BinOp(\n                            left=target, op=self.node.op, right=assign_value\n                        ),\n                    ),\n                )", "                self._aug_assign_expr(\n                    target,\n                    self.node.op,\n                    assign_value,\n                    fallback=self.nsp.get_assign(\n                        self.node.target.id,\n                        BinOp(left=target, op=self.node.op, right=assign_value),\n                    ),\n                )")]},
+    {"id": "n61", "prop": "C17", "expect": ["C17-R1"], "files": [(EU, "def unparse_Await(node: Await) -> unparse_gen_t:\n    value = yield PREC_AWAIT_SLOT, node.value\n    return f\"await {value}\"", "def unparse_Await(node: Await) -> unparse_gen_t:\n    value = expr_unparse(node.value)\n    return f\"await ({value})\"\n    yield")]},
+]
